@@ -137,3 +137,88 @@ Proof.
   apply tsv_data_err in H. destruct H as (Ha & pre & bad & post & Els & Hpre & Hb & Hne & Hl). subst t.
   rewrite (nfields_header h) in Ha. exists h, pre, bad, post. repeat split; auto.
 Qed.
+
+(* ---------- the a_2, a_3, ... key search never runs out of fuel (pigeonhole) ---------- *)
+From Coq Require Import DecimalString DecimalN FinFun.
+
+Lemma N_to_dec_inj a b : N_to_dec a = N_to_dec b -> a = b.
+Proof.
+  unfold N_to_dec. intros H.
+  apply (f_equal string_of_list_ascii) in H. rewrite !string_of_list_ascii_of_string in H.
+  apply (f_equal NilEmpty.uint_of_string) in H. rewrite !NilEmpty.usu in H. inversion H as [H'].
+  apply (f_equal N.of_uint) in H'. now rewrite !Unsigned.of_to in H'.
+Qed.
+
+Definition cand (k : bytes) (i : N) : bytes := k ++ "_" :: N_to_dec i.
+
+Lemma cand_inj k : Injective (cand k).
+Proof.
+  intros a b H. unfold cand in H. apply app_inv_head in H. inversion H as [H']. now apply N_to_dec_inj.
+Qed.
+
+Lemma has_In k r : has k r = true -> In k (keys r).
+Proof.
+  unfold has. induction r as [|[k' v] r IH]; cbn; [discriminate|].
+  destruct (beqb_spec k k') as [->|Hne]; [now left|]. intros H. right. now apply IH.
+Qed.
+
+Lemma fresh_key_none k r : forall fuel i,
+  fresh_key fuel k i r = None -> forall t, (t < fuel)%nat -> has (cand k (i + N.of_nat t)) r = true.
+Proof.
+  induction fuel as [|f IH]; intros i H t Ht; [lia|]. cbn [fresh_key] in H. fold (cand k i) in H.
+  destruct (has (cand k i) r) eqn:E; [|discriminate].
+  destruct t as [|t'].
+  - now replace (i + N.of_nat 0)%N with i by lia.
+  - replace (i + N.of_nat (S t'))%N with (i + 1 + N.of_nat t')%N by lia. apply IH; [exact H|lia].
+Qed.
+
+Lemma fresh_key_some k r i : fresh_key (S (S (List.length r))) k i r <> None.
+Proof.
+  intros H. pose proof (fresh_key_none k r _ _ H) as Hall.
+  set (f := S (S (List.length r))) in *.
+  set (cands := map (fun t => cand k (i + N.of_nat t)) (seq 0 f)).
+  assert (Hnd : NoDup cands).
+  { apply Injective_map_NoDup; [|apply seq_NoDup].
+    intros a b Hab. apply cand_inj in Hab. apply N.add_cancel_l in Hab. now apply Nat2N.inj in Hab. }
+  assert (Hincl : incl cands (keys r)).
+  { intros x Hx. apply in_map_iff in Hx. destruct Hx as (t & <- & Ht). apply in_seq in Ht.
+    apply has_In. apply Hall. lia. }
+  pose proof (NoDup_incl_length Hnd Hincl) as Hlen.
+  unfold cands, keys in Hlen. rewrite !map_length, seq_length in Hlen. subst f.
+  apply (Nat.nle_succ_diag_l (List.length r)). apply Nat.le_trans with (2 := Hlen). apply Nat.le_succ_diag_r.
+Qed.
+
+Lemma put_dedupe_some k v r : put_dedupe k v r <> None.
+Proof.
+  unfold put_dedupe. destruct (has k r); [|discriminate].
+  destruct (fresh_key (S (S (List.length r))) k 2 r) eqn:E; [discriminate|]. now apply fresh_key_some in E.
+Qed.
+
+Lemma put_all_some kvs : forall r, put_all kvs r <> None.
+Proof.
+  induction kvs as [|[k v] t IH]; intros r; cbn; [discriminate|].
+  destruct (put_dedupe k v r) eqn:E; [apply IH|now apply put_dedupe_some in E].
+Qed.
+
+Lemma read_dkvp_total s : exists rs, read_dkvp s = Ok rs /\ List.length rs = List.length (split_lines s).
+Proof.
+  destruct (map_lines_total_some dkvp_line (split_lines s)) as [rs H].
+  - intros l. apply put_all_some.
+  - exists rs. split; [exact H|]. now apply map_lines_ok_length in H.
+Qed.
+
+Lemma tsv_data_fuel_ok hdr : forall ls line, tsv_data hdr line ls <> OutOfFuel.
+Proof.
+  induction ls as [|x t IH]; intros line; cbn; [discriminate|].
+  destruct (nfields x =? N.of_nat (List.length hdr))%N; [|discriminate].
+  unfold tsv_record. destruct (put_all _ []) eqn:E; [|now apply put_all_some in E].
+  specialize (IH (line + 1)%N). destruct (tsv_data hdr (line + 1)%N t); congruence.
+Qed.
+
+Lemma read_tsv_fuel_ok s : read_tsv s <> OutOfFuel.
+Proof. unfold read_tsv. destruct (split_lines s); [discriminate|apply tsv_data_fuel_ok]. Qed.
+
+Lemma read_tsv_malformed_err_strong s : tsv_malformed s -> exists a b l, read_tsv s = ErrMismatch a b l.
+Proof.
+  intros H. destruct (read_tsv_malformed_err s H) as [He|Hf]; [exact He|]. now apply read_tsv_fuel_ok in Hf.
+Qed.
